@@ -69,7 +69,14 @@ def begin_lines(c, label, pre=None):
 
 
 def plan(c):
-    return [("U",)] + [("AB", K, fmt) for K in c["Ks"] for fmt in c["fmts"]]
+    return ([("U",)] + [("AB", K, fmt) for K in c["Ks"] for fmt in c["fmts"]] + [("Q", K) for K in c.get("auto_Ks", [])]
+            + [("M", K, fmt) for K, fmt in c.get("buffer_Ks", [])] + [("C", K1, K2, fmt) for K1, K2, fmt in c.get("chain_Ks", [])]
+            + [("R", K) for K in c.get("boundary_Ks", [])])
+
+
+def auto_freq(c, K):
+    """restart frequency that makes the module write its automatic restart file at step index K (and not later)"""
+    return c.get("it0", 0) + K
 
 
 def scenario(c, d, runs=None):
@@ -93,6 +100,61 @@ def scenario(c, d, runs=None):
             for t in range(T):
                 L += step_lines(c, t)
             L += ["save text %sU.colvars.state" % pre]
+        elif run[0] == "Q":
+            # automatic restart file: the module writes <prefix>.colvars.state from within the computation of step K
+            # (colvarsRestartFrequency); the job ends there; a fresh instance loads that file and goes on from step K
+            K = run[1]
+            L += ["restartfreq %d" % auto_freq(c, K), "prefix %sQ_%d" % (pre, K)]
+            L += begin_lines(c, "Q_%d" % K, None)
+            for t in range(K + 1):
+                L += step_lines(c, t)
+            L += ["restartfreq 0", "prefix"]
+            L += begin_lines(c, "QB_%d" % K, None)
+            L += ["load %sQ_%d.colvars.state" % (pre, K)]
+            for t in range(K, T):
+                L += step_lines(c, t)
+            L += ["save text %sQB_%d.colvars.state" % (pre, K)]
+        elif run[0] == "C":
+            # three jobs: stop after K1, resume, stop after K2, resume, go on to the end
+            _, K1, K2, fmt = run
+            lab = "%d_%d_%s" % (K1, K2, fmt)
+            f1, f2 = "%sc1_%s" % (pre, lab), "%sc2_%s" % (pre, lab)
+            L += begin_lines(c, "C1_" + lab, pre)
+            for t in range(K1 + 1):
+                L += step_lines(c, t)
+            L += ["save %s %s.colvars.state" % (fmt, f1)]
+            L += begin_lines(c, "C2_" + lab, pre)
+            L += ["load %s" % f1]
+            for t in range(K1, K2 + 1):
+                L += step_lines(c, t)
+            L += ["save %s %s.colvars.state" % (fmt, f2)]
+            L += begin_lines(c, "C3_" + lab, pre)
+            L += ["load %s" % f2]
+            for t in range(K2, T):
+                L += step_lines(c, t)
+            L += ["save text %sC3_%s.colvars.state" % (pre, lab)]
+        elif run[0] == "M":
+            # the state travels as a buffer in memory (checkpoint of the engine, `cv savetostring`), not as a file
+            _, K, fmt = run
+            L += begin_lines(c, "MA_%d_%s" % (K, fmt), pre)
+            for t in range(K + 1):
+                L += step_lines(c, t)
+            L += ["bufsave %s" % fmt]
+            L += begin_lines(c, "MB_%d_%s" % (K, fmt), pre)
+            L += ["bufload %s" % fmt]
+            for t in range(K, T):
+                L += step_lines(c, t)
+            L += ["save text %sMB_%d_%s.colvars.state" % (pre, K, fmt)]
+        elif run[0] == "R":
+            # run boundary without reloading: the engine ends a run after step K and starts the next one in the same
+            # session, which computes step K again (simulation continuing) and goes on
+            K = run[1]
+            L += begin_lines(c, "R_%d" % K, pre)
+            for t in range(T):
+                L += step_lines(c, t)
+                if t == K:
+                    L += ["runboundary"] + step_lines(c, t)
+            L += ["save text %sR_%d.colvars.state" % (pre, K)]
         else:
             _, K, fmt = run
             lab = "%d_%s" % (K, fmt)
